@@ -23,8 +23,16 @@ DUMMY = {"U": [], "P": [], "W": []}
 
 
 class Validator:
-    def __init__(self):
+    def __init__(self, module="Trace.tla", cfg="Trace.cfg"):
         self.events = []
+        self.module = module
+        self.cfg = cfg
+
+    def add_raw(self, ev, tag=None):
+        ev = dict(ev)
+        ev["id"] = len(self.events) + 1
+        self.events.append((ev, tag))
+        return ev["id"]
 
     def add(self, act, c=None, b=None, d=None, cls="ok", tag=None, dv=None):
         ev = {"id": len(self.events) + 1, "act": act, "c": c or DUMMY, "b": b or DUMMY, "d": d or DUMMY,
@@ -52,7 +60,7 @@ class Validator:
                 with os.fdopen(fd, "w") as f:
                     for ev in todo:
                         f.write(json.dumps(ev, separators=(",", ":")) + "\n")
-                res = core.run_tlc("Trace.tla", "Trace.cfg", env={"TRACE_FILE": path}, timeout=timeout)
+                res = core.run_tlc(self.module, self.cfg, env={"TRACE_FILE": path}, timeout=timeout)
             finally:
                 os.unlink(path)
             stats["tlc_runs"] += 1
